@@ -33,11 +33,19 @@ impl<'a, K, T> Iterator for RevisionIterator<'a, K, T> {
     fn next(&mut self) -> Option<Self::Item> {
         #[cfg(feature = "verif-hooks")]
         crate::verif_hooks::step("RevisionIterator::next");
-        self.ks
+        // Chains may have different lengths: yield the elements of the chains
+        // that are not exhausted yet, and stop once all of them are.
+        let revision = self
+            .ks
             .iter()
             .zip(self.ls.iter_mut())
-            .map(|(k, it)| it.next().map(|t| (*k, t)))
-            .collect()
+            .filter_map(|(k, it)| it.next().map(|t| (*k, t)))
+            .collect::<Vec<_>>();
+        if revision.is_empty() {
+            None
+        } else {
+            Some(revision)
+        }
     }
 }
 
